@@ -37,6 +37,7 @@ pub fn ground(which: &str) -> Option<vk::std::string::String> {
     use vk::std::format;
     use vk::std::vec::Vec;
     if which == "tables_wf" { return Some(tables_wf()); }
+    if which == "tables_modes" { return Some(tables_modes()); }
     if which != "lookups" { return None; }
     // all element types reachable from ROOT through the public listing
     let mut seen: HashSet<ElementType> = HashSet::new();
@@ -200,4 +201,30 @@ fn tables_wf() -> vk::std::string::String {
         for i in a..b { if let SubElement::Group(g) = &SUBELEMENTS[i] { inst += 1; if !(rank[*g as usize] < rank[t]) { return format!("FAIL rank({}) !< rank({})", g, t); } } }
     }
     format!("OK {} tables: ELEMENTS={} SUBELEMENTS={} ATTRIBUTES={} VERSION_INFO={} DATATYPES={} CHARACTER_DATA={} REF_ITEMS={} max-group-depth={}", inst, n_el, n_sub, n_attr, n_ver, n_dt, n_cd, n_ref, maxrank)
+}
+
+
+/// The predicate `wf_modes()` of the Verus units `elemcheck` / `insertrange`, evaluated on the real statics: a type whose content
+/// mode is Characters lists no sub-elements, and no group entry of SUBELEMENTS names a type with content mode Characters.
+/// (This is what makes `panic!("accepted a sub-element inside a character-only element")` and the `unreachable!()` on
+/// ContentMode::Characters sub-groups unreachable.)
+#[cfg(not(kani))]
+fn tables_modes() -> vk::std::string::String {
+    use vk::std::format;
+    let mut inst = 0u64;
+    for (t, s) in DATATYPES.iter().enumerate() {
+        inst += 1;
+        if s.mode == ContentMode::Characters && s.sub_elements.0 != s.sub_elements.1 {
+            return format!("FAIL DATATYPES[{}] has mode Characters but lists sub-elements {}..{}", t, s.sub_elements.0, s.sub_elements.1);
+        }
+    }
+    for (i, s) in SUBELEMENTS.iter().enumerate() {
+        if let SubElement::Group(g) = s {
+            inst += 1;
+            if (*g as usize) < DATATYPES.len() && DATATYPES[*g as usize].mode == ContentMode::Characters {
+                return format!("FAIL SUBELEMENTS[{}] = Group({}) has content mode Characters", i, g);
+            }
+        }
+    }
+    format!("OK {} instances", inst)
 }
